@@ -314,8 +314,22 @@ def gen_custom_forms(rng, n, reg0=False, tables=None):
       used.add(pn)   # a later form or table must not take the name of a parameter (exprtk: variable/function clash)
     params = [rname] + pnames
     expr = gen_formula(rng, params, reg0=reg0, forms=list(forms), tables=tables)
+    if rng.random() < 0.3:
+      expr = recase_vars(expr, rng)
     forms.append({"name": name, "params": params, "expr": expr, "breaks": formula_breaks(expr)})
   return forms
+
+
+def recase_vars(e, rng):
+  """The formula spells (some occurrences of) its variables in another case than the signature does: exprtk symbols are
+  case-insensitive, so 'a*exp(-R/RHO)' is the same formula as 'A*exp(-r/rho)'."""
+  if not isinstance(e, list):
+    return e
+  if e and e[0] == "var":
+    n = e[1]
+    alt = rng.choice([n.upper(), n.lower(), n.swapcase(), n])
+    return ["var", alt]
+  return [e[0]] + [recase_vars(x, rng) if isinstance(x, list) else x for x in e[1:]]
 
 
 def gen_table(rng, name, npts=None, lo=0.0, hi=None):
@@ -977,3 +991,28 @@ def edge_sizes(tier, multiple_of=1, lo=2):
   if multiple_of > 1:
     out = sorted(set((n // multiple_of) * multiple_of for n in out if n >= multiple_of) | set(((n // multiple_of) + 1) * multiple_of for n in out))
   return out
+
+
+def share_leading_range(rng, model, keys=("density", "pair", "embed", "dipole", "quadrupole")):
+  """Give two entries of one section the SAME leading range (form, parameters and start) but different later ranges:
+  'A : dens 2.0 0.5 >=3 product(...)' next to 'B : dens 2.0 0.5 >=3 trans(...)'.  Anything that identifies a definition
+  by how it starts would mix the two up.  (potable route.)  Returns the number of sections changed."""
+  n = 0
+  for key in keys:
+    ents = model.get(key) or []
+    if len(ents) < 2:
+      continue
+    i, j = rng.sample(range(len(ents)), 2)
+    m0 = rng.choice([">", ">="])
+    s0 = 0.0
+    first = {"k": "form", "name": "bornmayer", "p": [rfloat(rng, 1.0, 50.0), rfloat(rng, 0.3, 1.5)]}
+    m1, s1 = rng.choice([">", ">="]), rfloat(rng, 0.5, 3.0, 2)
+    later = [{"k": "product", "a": [{"k": "form", "name": "polynomial", "p": [rfloat(rng, 0.1, 2.0), rfloat(rng, 0.01, 0.3)]}, {"k": "form", "name": "constant", "p": [rfloat(rng, 0.5, 2.0)]}]},
+             {"k": "trans", "f": {"k": "form", "name": "polynomial", "p": [rfloat(rng, 2.0, 4.0), rfloat(rng, 0.01, 0.3)]}, "x": rfloat(rng, 0.1, 1.0)},
+             {"k": "form", "name": "constant", "p": [rfloat(rng, 5.0, 9.0)]},
+             {"k": "sum", "a": [{"k": "form", "name": "constant", "p": [rfloat(rng, 10.0, 12.0)]}, {"k": "form", "name": "polynomial", "p": [0.0, rfloat(rng, 0.1, 1.0)]}]}]
+    a, b = rng.sample(later, 2)
+    ents[i][-1] = {"k": "ranges", "parts": [[m0, s0, dict(first)], [m1, s1, a]]}
+    ents[j][-1] = {"k": "ranges", "parts": [[m0, s0, dict(first)], [m1, s1, b]]}
+    n += 1
+  return n
